@@ -52,6 +52,8 @@ func ParseAnyPrivateKey(blob []byte, prompt passprompt.PasswordGetter) (crypto.P
 			}
 		}
 		return nil, errors.New("failed to find any private keys in PEM data")
+	} else if len(blob) == 0 {
+		return nil, errors.New("private key is empty")
 	} else if blob[0] == asn1Magic {
 		return parsePrivateKey(blob)
 	} else if blob[0]&0x80 != 0 {
